@@ -12,6 +12,8 @@ TRUSTED_BASE = [
     "axioms for exp/log/sqrt/softplus/sigmoid/tanh; softmax abstracted as a point of the open simplex",
     "term differentiator and log-linear normaliser of tsv/terms.py",
     "z3 5.1.0 answers unsat only for unsatisfiable formulas",
+    "sympy 1.14 polynomial arithmetic (cancel / groebner / reduce) for the obligations whose back end is sympy-ring+z3 (rational-function identities; z3 proves the denominators non-zero)",
+    "mathematical lemmas 4a-4d, the Gaussian normaliser and the exp/log/sqrt/softplus/sigmoid/tanh/arctan/softmax axiom schemas are machine-checked in lemmas/Lemmas.lean (Lean 4.33 + Mathlib, lemmas/check.sh); 4e, 4f, 4h are trusted",
 ]
 
 _H = []
